@@ -134,6 +134,33 @@ def run(tier):
             if bad is not None or not np.allclose(Db[0, 0], D1, rtol=1e-10, atol=1e-13, equal_nan=True):
                 chk.violation("batch-independence:%s" % vname(v), "an element of a batch does not get the result it gets alone",
                               dict(ctx, element=bad, moments=None if bad is None else arr[bad].tolist()))
+    # neighbouring members with nearly equal moments (a solution carried from one member to the next must not change the result): the last
+    # bin of member t and the first bin of member t+1 differ by at most 0.03 per moment, taken from the noisy / unrealisable quadruples too
+    for v in VARIANTS:
+        for rep in range(2 if quick else 12):
+            nt, nf = 4, 2
+            N = rng.choice([24, 36])
+            d = np.linspace(0, 360, N, endpoint=False)
+            arr = np.zeros((nt, nf, 4))
+            for t in range(nt):
+                arr[t, 1] = M[rng.randrange(len(M))]
+            for t in range(nt):
+                base = arr[t - 1, 1] if t > 0 else M[rng.randrange(len(M))]
+                arr[t, 0] = base + np.array([rng.uniform(-0.03, 0.03) for _ in range(4)])
+            ctx = {"variant": vname(v), "N": N, "shape": [nt, nf], "moments": arr.tolist()}
+            try:
+                Db = estimate_directional_distribution(arr[..., 0].copy(), arr[..., 1].copy(), arr[..., 2].copy(), arr[..., 3].copy(), d, method=v[0], **v[1])
+                alone = [estimate_directional_distribution(arr[t:t + 1, :, 0].copy(), arr[t:t + 1, :, 1].copy(), arr[t:t + 1, :, 2].copy(),
+                                                           arr[t:t + 1, :, 3].copy(), d, method=v[0], **v[1])[0] for t in range(nt)]
+            except Exception as e:
+                chk.violation("raise:neighbours:%s:%s" % (vname(v), type(e).__name__), "estimator raised on a batch of similar members", dict(ctx, error=str(e)[:300]))
+                continue
+            evals += 2 * nt * nf
+            for t in range(nt):
+                if not np.allclose(Db[t], alone[t], rtol=1e-10, atol=1e-13, equal_nan=True):
+                    chk.violation("batch-independence:neighbours:%s" % vname(v), "a member of a batch of similar spectra does not get the result it gets alone",
+                                  dict(ctx, member=t, max_abs_diff=float(np.nanmax(np.abs(Db[t] - alone[t]))), peak=float(np.nanmax(alone[t]))))
+                    break
     # spectrum level: E round trip, variance, carried variables
     for v in VARIANTS:
         for rep in range(2 if quick else 8):
@@ -144,8 +171,12 @@ def run(tier):
             E = np.array([[rng.uniform(0.1, 3.0) for _ in range(nf)] for _ in range(B)])
             tim, lat, lon, dep = np.arange(B) * 3600, np.arange(B) * 1.0 + 3, np.arange(B) * -2.0, np.array([rng.choice([np.inf, 25.0]) for _ in range(B)])
             s1 = create_1d_spectrum(f, E, tim, lat, lon, a1=mm[..., 0], b1=mm[..., 1], a2=mm[..., 2], b2=mm[..., 3], depth=dep)
+            if rep % 2 == 1:
+                # time stamps as a logger or a netcdf file delivers them (sub-second), assigned after construction
+                stamps = np.array([np.datetime64("2022-03-04T05:06:07.250") + np.timedelta64(2500 * i, "ms") for i in range(B)]).astype("datetime64[ns]")
+                s1.dataset = s1.dataset.assign_coords(time=("time", stamps))
             N = rng.choice(Ns)
-            ctx = {"variant": vname(v), "N": N, "batch": B}
+            ctx = {"variant": vname(v), "N": N, "batch": B, "sub_second_time_stamps": rep % 2 == 1}
             try:
                 s2 = s1.as_frequency_direction_spectrum(N, method=v[0], **v[1])
                 back = s2.as_frequency_spectrum()
